@@ -227,6 +227,10 @@ func (n *Node) References(ctx context.Context, refType uint32, dir ua.BrowseDire
 }
 
 func (n *Node) browseNext(ctx context.Context, results []*ua.BrowseResult) ([]*ua.ReferenceDescription, error) {
+	if len(results) == 0 {
+		// the request asked for exactly one node
+		return nil, ua.StatusBadUnexpectedError
+	}
 	refs := results[0].References
 	for len(results[0].ContinuationPoint) > 0 {
 		req := &ua.BrowseNextRequest{
@@ -236,6 +240,9 @@ func (n *Node) browseNext(ctx context.Context, results []*ua.BrowseResult) ([]*u
 		resp, err := n.c.BrowseNext(ctx, req)
 		if err != nil {
 			return nil, err
+		}
+		if len(resp.Results) == 0 {
+			return nil, ua.StatusBadUnexpectedError
 		}
 		results = resp.Results
 		refs = append(refs, results[0].References...)
